@@ -58,7 +58,7 @@ impl Runner<W> for RecordingRunner {
     }
 }
 
-const TAGS: &[&str] = &["a", "b", "c", "wip", "slow"];
+const TAGS: &[&str] = &["a", "b", "c", "wip", "slow", "Smoke", "WIP"];
 
 fn gen_tags(t: &mut Tape, p: u32) -> Vec<String> {
     TAGS.iter().filter(|_| t.rare(p, 100)).map(|s| (*s).to_string()).collect()
